@@ -140,7 +140,9 @@ Definition table_ok (c : cfg) : bool :=
   && (c_load_atomic_pool c || c_pool_rechecks c)
   && (c_load_atomic_engine c || c_apply_checks_stopped c)
   && c_pool_stop_before_unload c && c_sched_checks_loaded c && c_stream_checks_flag c
-  && pool_blocks_ok c.
+  && pool_blocks_ok c
+  && c_book_atomic c
+  && forallb (fun s => negb (meth_eqb (s_meth s) MUpdate) || String.eqb (s_root s) "Handle") (c_sites c).
 
 Section Proofs.
 Variable c : cfg.
@@ -156,20 +158,28 @@ Lemma tab_parts :
   /\ (c_load_atomic_pool c || c_pool_rechecks c) = true
   /\ (c_load_atomic_engine c || c_apply_checks_stopped c) = true.
 Proof.
-  pose proof Htab as H. unfold table_ok in H. do 4 (apply andb_prop in H; destruct H as [H _]).
+  pose proof Htab as H. unfold table_ok in H. do 6 (apply andb_prop in H; destruct H as [H _]).
   repeat (apply andb_prop in H; destruct H as [H ?]). tauto.
 Qed.
 
 Lemma tab_stop : c_pool_stop_before_unload c = true /\ c_sched_checks_loaded c = true /\ c_stream_checks_flag c = true.
 Proof.
-  pose proof Htab as H. unfold table_ok in H. apply andb_prop in H. destruct H as [H _].
+  pose proof Htab as H. unfold table_ok in H. do 3 (apply andb_prop in H; destruct H as [H _]).
   do 2 (apply andb_prop in H; destruct H as [H ?]).
   apply andb_prop in H. tauto.
 Qed.
 
+Lemma tab_book :
+  c_book_atomic c = true
+  /\ forallb (fun s => negb (meth_eqb (s_meth s) MUpdate) || String.eqb (s_root s) "Handle") (c_sites c) = true.
+Proof.
+  pose proof Htab as H. unfold table_ok in H. do 2 (apply andb_prop in H; destruct H as [H ?]). tauto.
+Qed.
+
 Lemma tab_blocks a b : admit_conflict c a b = job_conflict a b.
 Proof.
-  pose proof Htab as H. unfold table_ok in H. apply andb_prop in H. destruct H as [_ H].
+  pose proof Htab as H. unfold table_ok in H. do 2 (apply andb_prop in H; destruct H as [H _]).
+  apply andb_prop in H. destruct H as [_ H].
   unfold pool_blocks_ok in H. rewrite forallb_forall in H.
   assert (Ha : In a all_jobkinds) by (destruct a; simpl; auto).
   assert (Hb : In b all_jobkinds) by (destruct b; simpl; auto).
@@ -603,8 +613,9 @@ Qed.
 
 Lemma inv_apstart st n st' : inv c st -> step c st (AApStart n) = Some st' -> inv c st'.
 Proof.
-  intros H Hs. simpl in Hs. destruct (ap_chk st && is_idle (getT st 0)) eqn:G; [|discriminate].
-  apply andb_prop in G; destruct G as [G1 G2].
+  intros H Hs. simpl in Hs.
+  destruct (ap_chk st && is_idle (getT st 0) && (c_book_atomic c || negb (dirty st))) eqn:G; [|discriminate].
+  apply andb_prop in G; destruct G as [G _]. apply andb_prop in G; destruct G as [G1 G2].
   destruct (nth_error (apply_sites c) n) as [s|] eqn:En; [|discriminate]. inversion Hs; subst st'; clear Hs.
   assert (Hl : 0 < List.length (thr st)) by (inv_destruct H; lia).
   eapply (inv_start st 0 [s]); eauto; simpl; auto; try discriminate;
@@ -674,7 +685,8 @@ Proof.
   inversion Hs; subst st'; clear Hs.
   assert (Hcl : closing (mkState (upd w (mkThr (job_sites c j) P0 (Some j)) (thr st)) (destroyed st) (closed st) (nclose st)
                     (stopped st) (S (cnt st)) (ap_ref st) (ap_chk st) (pool_ref st) (pool_chk st) (close_ready st)
-                    (ss_streaming st) (stream_done st) (fun k => negb (jk_eqb k j) && pend st k)) -> False).
+                    (ss_streaming st) (stream_done st) (fun k => negb (jk_eqb k j) && pend st k)
+                    (dirty st) (snap_bad st)) -> False).
   { intro X. apply Hnc. unfold closing, getT in *. simpl in X. rewrite nthU in X; auto.
     ucase w 1; [congruence|]. exact X. }
   constructor; unfold getT; simpl.
@@ -1086,6 +1098,16 @@ Proof.
         try solve [left; split; auto; rewrite <- (Hrun P0); apply running_same; split; discriminate].
 Qed.
 
+(* the ghost fields are not mentioned by the invariant *)
+Lemma inv_ghost st d b : inv c st -> inv c (set_ghost st d b).
+Proof. intros H. inv_destruct H. constructor; auto. Qed.
+
+Lemma inv_ghost_step st i st1 : inv c st1 -> inv c (ghost_step c st i st1).
+Proof.
+  intros H. unfold ghost_step. destruct (t_job (getT st i)); auto.
+  destruct (t_ph (getT st i)); auto; apply inv_ghost; auto.
+Qed.
+
 Theorem inv_step st a st' : inv c st -> step c st a = Some st' -> inv c st'.
 Proof.
   destruct a; intros H Hs.
@@ -1096,6 +1118,8 @@ Proof.
   - eapply inv_apstart; eauto.
   - eapply inv_apoffload; eauto.
   - eapply inv_apclear; eauto.
+  - simpl in Hs. destruct (negb (c_book_atomic c) && dirty st && is_idle (getT st 0)); [|discriminate].
+    inversion Hs; subst. apply inv_ghost; auto.
   - eapply inv_poolload; eauto.
   - eapply inv_poolincr; eauto.
   - eapply inv_poolcheck; eauto.
@@ -1107,7 +1131,182 @@ Proof.
   - eapply inv_completed; eauto.
   - eapply inv_readerstart; eauto.
   - eapply inv_closestart; eauto.
-  - eapply inv_thr; eauto.
+  - simpl in Hs. destruct (thr_step c st i) as [st1|] eqn:E; [|discriminate]. inversion Hs; subst.
+    apply inv_ghost_step. eapply inv_thr; eauto.
+Qed.
+
+(* ---------- the ghost invariant: a snapshot image is never labelled while dirty ---------- *)
+Definition ginv (st : state) : Prop :=
+  (dirty st = true -> exists s r, t_job (getT st 0) = s :: r /\ s_meth s = MUpdate /\ ph_45 (t_ph (getT st 0)) = true)
+  /\ snap_bad st = false.
+
+Lemma role_apply_0 i : role_of c i = RApply -> i = 0.
+Proof. destruct i as [|[|k]]; simpl; auto; try discriminate. destruct (k <? c_nsnap c); discriminate. Qed.
+
+Lemma update_site_is_apply st i s r :
+  inv c st -> t_job (getT st i) = s :: r -> s_meth s = MUpdate -> i = 0.
+Proof.
+  intros H Hjb Hm. inv_destruct H. specialize (Hjob i). rewrite Hjb in Hjob. inversion Hjob; subst.
+  pose proof H1 as Hal. apply allowed_root in H1. destruct H1 as [Hin _].
+  destruct tab_book as [_ Hu]. rewrite forallb_forall in Hu. specialize (Hu s Hin). rewrite Hm in Hu. simpl in Hu.
+  apply String.eqb_eq in Hu.
+  apply role_apply_0. destruct (role_of c i) eqn:Er; auto; exfalso; simpl in Hal.
+  - unfold close_sites in Hal. apply root_sites_in in Hal. destruct Hal as [_ X]. rewrite Hu in X. discriminate.
+  - destruct (t_busy (getT st i)) as [j|]; [|contradiction]. unfold job_sites in Hal.
+    destruct j; repeat (apply in_app_or in Hal; destruct Hal as [Hal|Hal]);
+      try (destruct (is_disk (c_kind c)); [|simpl in Hal; contradiction]);
+      apply root_sites_in in Hal; destruct Hal as [_ X]; rewrite Hu in X; discriminate.
+  - unfold reader_sites in Hal. apply in_app_or in Hal. destruct Hal as [Hal|Hal];
+      apply root_sites_in in Hal; destruct Hal as [_ X]; rewrite Hu in X; discriminate.
+Qed.
+
+(* what a phase step does to the thread list *)
+Lemma thr_step_eff st i st1 :
+  thr_step c st i = Some st1 ->
+  exists s rest, t_job (getT st i) = s :: rest
+  /\ (forall j, j <> i -> getT st1 j = getT st j)
+  /\ dirty st1 = dirty st /\ snap_bad st1 = snap_bad st
+  /\ match t_ph (getT st i) with
+     | P3 => t_job (getT st1 i) = s :: rest /\ t_ph (getT st1 i) = P4
+     | P4 => t_job (getT st1 i) = s :: rest /\ t_ph (getT st1 i) = P5
+     | _ => ph_45 (t_ph (getT st1 i)) = false
+     end.
+Proof.
+  intros Hs. unfold thr_step in Hs.
+  destruct (t_job (getT st i)) as [|s rest] eqn:Hjb; [discriminate|].
+  assert (Hl : i < List.length (thr st)) by (apply nonidle_lt; unfold is_idle; rewrite Hjb; auto).
+  exists s, rest. split; auto.
+  assert (Hoth : forall t' j, j <> i -> nth j (upd i t' (thr st)) idle_thread = nth j (thr st) idle_thread).
+  { intros t' j Hj. rewrite nthU; auto. destruct (Nat.eqb_spec i j); [congruence|reflexivity]. }
+  assert (Hself : forall t', nth i (upd i t' (thr st)) idle_thread = t').
+  { intros t'. rewrite nthU; auto. rewrite Nat.eqb_refl. auto. }
+  Ltac eff_fin Hoth Hself :=
+    unfold getT; simpl; repeat split; auto; try (intros; apply Hoth; auto); rewrite ?Hself; auto.
+  destruct (t_ph (getT st i)) eqn:Hph.
+  - destruct (others_ok holdsS (s_smu s) (Some i) (thr st)); [|discriminate]. inversion Hs; subst; clear Hs.
+    eff_fin Hoth Hself.
+  - destruct (others_ok holdsD (s_dmu s) (Some i) (thr st)); [|discriminate]. inversion Hs; subst; clear Hs.
+    eff_fin Hoth Hself.
+  - destruct (s_chk_de s && destroyed st); inversion Hs; subst; clear Hs; eff_fin Hoth Hself.
+  - destruct (s_meth s); inversion Hs; subst; clear Hs; eff_fin Hoth Hself.
+  - inversion Hs; subst; clear Hs. eff_fin Hoth Hself.
+  - destruct (s_post s); inversion Hs; subst; clear Hs; eff_fin Hoth Hself.
+  - destruct rest as [|s2 r2]; [destruct (t_busy (getT st i)) as [[]|]|destruct (t_busy (getT st i)) as [[]|]];
+      inversion Hs; subst; clear Hs; eff_fin Hoth Hself.
+Qed.
+
+Lemma ginv_thr st i st1 :
+  inv c st -> ginv st -> thr_step c st i = Some st1 -> ginv (ghost_step c st i st1).
+Proof.
+  intros Hinv [G1 G2] Hs.
+  destruct (thr_step_eff st i st1 Hs) as (s & rest & Hjb & Hoth & Hd & Hb & Heff).
+  destruct tab_book as [Hat _].
+  assert (HT0 : i <> 0 -> getT st1 0 = getT st 0) by (intros X; apply Hoth; auto).
+  (* the old witness, when thread i is not the apply worker *)
+  assert (Hkeep : forall stx, getT stx 0 = getT st 0 -> dirty st = true ->
+             exists s0 r0, t_job (getT stx 0) = s0 :: r0 /\ s_meth s0 = MUpdate /\ ph_45 (t_ph (getT stx 0)) = true).
+  { intros stx E Hdy. rewrite E. auto. }
+  unfold ghost_step. rewrite Hjb.
+  destruct (t_ph (getT st i)) eqn:Hph;
+    try (split; [rewrite Hd|rewrite Hb; exact G2]; intros Hdy;
+         destruct (Nat.eq_dec i 0) as [E0|E0];
+         [ subst i; destruct (G1 Hdy) as (s0 & r0 & A & B & C); rewrite Hph in C; discriminate
+         | apply Hkeep; auto ]).
+  - (* P3: enter *)
+    destruct Heff as [Hj1 Hp1]. unfold ginv, set_ghost, getT; simpl. fold (getT st1 0). split.
+    + intros Hdy. apply orb_prop in Hdy. destruct Hdy as [Hdy|Hu].
+      * destruct (Nat.eq_dec i 0) as [E0|E0].
+        -- subst i. destruct (G1 Hdy) as (s0 & r0 & A & B & C). rewrite Hph in C. discriminate.
+        -- rewrite (HT0 E0). auto.
+      * assert (Hm : s_meth s = MUpdate) by (destruct (s_meth s); simpl in Hu; try discriminate; auto).
+        assert (E0 : i = 0) by (eapply update_site_is_apply; eauto). subst i.
+        exists s, rest. rewrite Hj1, Hp1. auto.
+    + rewrite G2. simpl. destruct (dirty st) eqn:Hdy; [|apply andb_false_r].
+      destruct (label_site s) eqn:Hlab; auto. exfalso.
+      destruct (G1 eq_refl) as (s0 & r0 & A & B & C).
+      assert (E0 : i <> 0). { intro; subst i. rewrite Hph in C. discriminate. }
+      (* the apply worker holds S exclusively, the labelling thread holds it at least shared *)
+      pose proof Hinv as Hinv'. inv_destruct Hinv'.
+      assert (Hin0 : In s0 (c_sites c)).
+      { specialize (Hjob 0). rewrite A in Hjob. inversion Hjob; subst. apply allowed_root in H1. tauto. }
+      assert (HinS : In s (c_sites c)).
+      { specialize (Hjob i). rewrite Hjb in Hjob. inversion Hjob; subst. apply allowed_root in H1. tauto. }
+      destruct tab_parts as (Hcore & _). unfold table_core_ok in Hcore. rewrite forallb_forall in Hcore.
+      pose proof (Hcore s0 Hin0) as Hc0. pose proof (Hcore s HinS) as HcS. unfold site_ok_core in Hc0, HcS.
+      rewrite B in Hc0.
+      specialize (HlS i 0 E0). unfold holdsS in HlS. rewrite Hjb, A, Hph in HlS. simpl in HlS.
+      assert (Hh0 : holds_s (t_ph (getT st 0)) = true) by (destruct (t_ph (getT st 0)); simpl in C; try discriminate; auto).
+      rewrite Hh0 in HlS.
+      unfold label_site in Hlab.
+      destruct (s_smu s0); try discriminate.
+      destruct (s_meth s); simpl in Hlab; try discriminate; destruct (s_smu s); simpl in *; try discriminate.
+  - (* P4: return *)
+    destruct Heff as [Hj1 Hp1]. split; [rewrite Hd|rewrite Hb; exact G2]. intros Hdy.
+    destruct (Nat.eq_dec i 0) as [E0|E0]; [|apply Hkeep; auto].
+    subst i. destruct (G1 Hdy) as (s0 & r0 & A & B & C). rewrite Hjb in A. inversion A; subst s0 r0.
+    exists s, rest. rewrite Hj1, Hp1. auto.
+  - (* P5: post *)
+    unfold ginv, set_ghost, getT; simpl. fold (getT st1 0). split; [|exact G2].
+    intros Hdy. apply andb_prop in Hdy. destruct Hdy as [Hdy Hn]. apply negb_true_iff in Hn.
+    destruct (Nat.eq_dec i 0) as [E0|E0]; [|rewrite (HT0 E0); auto].
+    subst i. destruct (G1 Hdy) as (s0 & r0 & A & B & C). rewrite Hjb in A. inversion A; subst s0 r0.
+    rewrite B, Hat in Hn. discriminate.
+Qed.
+
+Lemma ginv_step st a st' : inv c st -> ginv st -> step c st a = Some st' -> ginv st'.
+Proof.
+  intros Hinv Hg Hs.
+  assert (Hsame : getT st' 0 = getT st 0 -> dirty st' = dirty st -> snap_bad st' = snap_bad st -> ginv st').
+  { intros E1 E2 E3. destruct Hg as [G1 G2]. unfold ginv. rewrite E1, E2, E3. auto. }
+  assert (Hn0 : forall w t', role_of c w <> RApply -> nth 0 (upd w t' (thr st)) idle_thread = getT st 0).
+  { intros w t' Hr. destruct w; [exfalso; apply Hr; reflexivity|]. unfold getT. destruct (thr st); reflexivity. }
+  destruct a; simpl in Hs.
+  - destruct (stopped st); [discriminate|]. inversion Hs; subst. apply Hsame; reflexivity.
+  - destruct (negb (stopped st) && ref_eqb (ap_ref st) NotLoaded); [|discriminate].
+    inversion Hs; subst. destruct (c_load_atomic_engine c); apply Hsame; reflexivity.
+  - destruct (ref_eqb (ap_ref st) Seen); [|discriminate]. inversion Hs; subst. apply Hsame; reflexivity.
+  - destruct (ref_eqb (ap_ref st) Loaded && is_idle (getT st 0)); [|discriminate]. inversion Hs; subst. apply Hsame; reflexivity.
+  - (* AApStart: the apply worker was idle, so nothing is dirty *)
+    destruct (ap_chk st && is_idle (getT st 0) && (c_book_atomic c || negb (dirty st))) eqn:G; [|discriminate].
+    apply andb_prop in G. destruct G as [G _]. apply andb_prop in G. destruct G as [_ Gi].
+    destruct (nth_error (apply_sites c) n); [|discriminate]. inversion Hs; subst.
+    destruct Hg as [G1 G2]. split; simpl; auto. intros Hdy. destruct (G1 Hdy) as (s0 & r0 & A & _).
+    unfold is_idle in Gi. rewrite A in Gi. discriminate.
+  - destruct (stopped st && ref_eqb (ap_ref st) Loaded && is_idle (getT st 0)); [|discriminate]. inversion Hs; subst. apply Hsame; reflexivity.
+  - destruct (ss_streaming st && stream_done st); [|discriminate]. inversion Hs; subst. apply Hsame; reflexivity.
+  - destruct (negb (c_book_atomic c) && dirty st && is_idle (getT st 0)); [|discriminate]. inversion Hs; subst.
+    destruct Hg as [G1 G2]. split; simpl; auto. discriminate.
+  - destruct (negb (stopped st) && ref_eqb (pool_ref st) NotLoaded); [|discriminate].
+    inversion Hs; subst. destruct (c_load_atomic_pool c); apply Hsame; reflexivity.
+  - destruct (ref_eqb (pool_ref st) Seen); [|discriminate]. inversion Hs; subst. apply Hsame; reflexivity.
+  - destruct (ref_eqb (pool_ref st) Loaded); [|discriminate]. inversion Hs; subst. apply Hsame; reflexivity.
+  - destruct (stopped st && ref_eqb (pool_ref st) Loaded); [|discriminate]. inversion Hs; subst. apply Hsame; reflexivity.
+  - match type of Hs with (if ?g then _ else _) = _ => destruct g; [|discriminate] end. inversion Hs; subst.
+    apply Hsame; try reflexivity. unfold getT at 1. simpl. rewrite nth_clear.
+    apply clear_busy_facts. apply (not_busy_role st 0 Hinv). discriminate.
+  - match type of Hs with (if ?g then _ else _) = _ => destruct g; [|discriminate] end. inversion Hs; subst. apply Hsame; reflexivity.
+  - match type of Hs with (if ?g then _ else _) = _ => destruct g; [|discriminate] end. inversion Hs; subst. apply Hsame; reflexivity.
+  - destruct (role_of c w) eqn:Er; try discriminate.
+    match type of Hs with (if ?g then _ else _) = _ => destruct g; [|discriminate] end. inversion Hs; subst.
+    apply Hsame; try reflexivity. unfold getT at 1. simpl. apply Hn0. rewrite Er. discriminate.
+  - destruct (role_of c w) eqn:Er; try discriminate. destruct (t_busy (getT st w)); try discriminate.
+    destruct (is_idle (getT st w)); [|discriminate]. inversion Hs; subst.
+    apply Hsame; try reflexivity. unfold getT at 1. simpl. apply Hn0. rewrite Er. discriminate.
+  - destruct (role_of c r) eqn:Er; try discriminate.
+    destruct (is_idle (getT st r) && (r <? List.length (thr st))); [|discriminate].
+    destruct (nth_error (reader_sites c) n); [|discriminate]. inversion Hs; subst.
+    apply Hsame; try reflexivity. unfold getT at 1. simpl. apply Hn0. rewrite Er. discriminate.
+  - destruct (close_ready st && is_idle (getT st 1)); [|discriminate].
+    destruct (destroyed st); inversion Hs; subst; apply Hsame; try reflexivity.
+    unfold getT at 1. simpl. apply (Hn0 1). discriminate.
+  - destruct (thr_step c st i) as [st1|] eqn:E; [|discriminate]. inversion Hs; subst. eapply ginv_thr; eauto.
+Qed.
+
+Lemma ginv_run l : forall st, inv c st -> ginv st -> ginv (run c st l).
+Proof.
+  induction l; simpl; intros st H Hg; auto. unfold step'.
+  destruct (step c st a) eqn:E; [|apply IHl; auto].
+  apply IHl; [eapply inv_step; eauto | eapply ginv_step; eauto].
 Qed.
 
 Lemma inv_run l : forall st, inv c st -> inv c (run c st l).
@@ -1417,7 +1616,8 @@ Definition table_before_fix :=
 Definition cfg_before_fix (k : kind) (nsnap : nat) : cfg :=
   mkCfg (sites_of_table table_before_fix) k nsnap engine_load_inside_foreach pool_load_inside_foreach
         apply_checks_stopped pool_rechecks_before_schedule pool_stops_workers_before_unload
-        sched_checks_node_loaded can_stream_checks_streaming pool_blocks.
+        sched_checks_node_loaded can_stream_checks_streaming
+        apply_bookkeeping_in_update_section pool_blocks.
 
 (* NodeHost stops the shard, the close worker is inside the user Close, a client
    holding a completed ReadIndex reads locally: Lookup runs beside (and after the
@@ -1443,7 +1643,8 @@ Proof. vm_compute. reflexivity. Qed.
 Definition cfg_unload_first (k : kind) (nsnap : nat) : cfg :=
   mkCfg gen_sites k nsnap engine_load_inside_foreach pool_load_inside_foreach
         apply_checks_stopped pool_rechecks_before_schedule false
-        sched_checks_node_loaded can_stream_checks_streaming pool_blocks.
+        sched_checks_node_loaded can_stream_checks_streaming
+        apply_bookkeeping_in_update_section pool_blocks.
 
 (* a save job is inside SaveSnapshot (resp. a recover job inside RecoverFromSnapshot),
    NodeHost.Close stops the node and the pool drops the busy reference without
@@ -1466,7 +1667,7 @@ Proof. vm_compute. repeat split; reflexivity. Qed.
 Definition cfg_flip (k : kind) (nsnap : nat) (sched_check stream_flag : bool) : cfg :=
   mkCfg gen_sites k nsnap engine_load_inside_foreach pool_load_inside_foreach
         apply_checks_stopped pool_rechecks_before_schedule pool_stops_workers_before_unload
-        sched_check stream_flag pool_blocks.
+        sched_check stream_flag apply_bookkeeping_in_update_section pool_blocks.
 
 (* a save request waits in the pool, the replica is stopped and closed, then a worker
    becomes free: without the test of scheduleWorker the job runs on the closed state machine *)
@@ -1497,7 +1698,7 @@ Proof. vm_compute. repeat split; reflexivity. Qed.
 Definition cfg_save_beside_stream (k : kind) (nsnap : nat) : cfg :=
   mkCfg gen_sites k nsnap engine_load_inside_foreach pool_load_inside_foreach
         apply_checks_stopped pool_rechecks_before_schedule pool_stops_workers_before_unload
-        sched_checks_node_loaded can_stream_checks_streaming
+        sched_checks_node_loaded can_stream_checks_streaming apply_bookkeeping_in_update_section
         [("Recover", ["saving"; "recovering"; "streaming"]); ("Save", ["saving"; "recovering"]);
          ("Stream", ["saving"; "recovering"])]%string.
 
@@ -1510,5 +1711,34 @@ Theorem pool_admission_needed_proved :
   (let st := run (cfg_save_beside_stream Disk 2) (init 5) stream_then_save_schedule in
    calls st = [(2%nat, MPrepare); (3%nat, MPrepare)] /\ overlap core core st = true)
   /\ calls (run (gen_cfg Disk 2) (init 5) stream_then_save_schedule) = [(2%nat, MPrepare)].
+Proof. vm_compute. repeat split; reflexivity. Qed.
+
+(* ---------- snapshot images are labelled consistently ---------- *)
+Theorem snapshot_label_consistent_proved :
+  forall k nsnap n sched, 2 <= n -> snap_bad (run (gen_cfg k nsnap) (init n) sched) = false.
+Proof.
+  intros k nsnap n sched Hn.
+  assert (G : ginv (run (gen_cfg k nsnap) (init n) sched)).
+  { apply ginv_run; [apply gen_table_ok | apply inv_init; auto |].
+    split; simpl; auto. discriminate. }
+  apply G.
+Qed.
+
+(* the generated configuration with the index bookkeeping done after the mutex was released *)
+Definition cfg_book_late (k : kind) (nsnap : nat) : cfg :=
+  mkCfg gen_sites k nsnap engine_load_inside_foreach pool_load_inside_foreach
+        apply_checks_stopped pool_rechecks_before_schedule pool_stops_workers_before_unload
+        sched_checks_node_loaded can_stream_checks_streaming false pool_blocks.
+
+(* the apply worker finished Update and released the mutex, the bookkeeping is still to come;
+   a save job takes its image now *)
+Definition late_book_schedule : list action :=
+  [AApLoad; AApIncr; AApCheck; ADispatch JSave; APoolLoad; APoolIncr; APoolCheck; ASchedule 2 JSave;
+   AApStart 1] ++ repeat (AThr 0) 7 ++ [AThr 2; AThr 2; AThr 2; AThr 2].
+
+Theorem bookkeeping_section_needed_proved :
+  snap_bad (run (cfg_book_late Conc 1) (init 4) late_book_schedule) = true
+  /\ calls (run (cfg_book_late Conc 1) (init 4) late_book_schedule) = [(2%nat, MPrepare)]
+  /\ snap_bad (run (gen_cfg Conc 1) (init 4) late_book_schedule) = false.
 Proof. vm_compute. repeat split; reflexivity. Qed.
 
